@@ -125,6 +125,7 @@ def Restreamed(sub, dec, dunit, enc, eunit, sizec): return N("Restreamed", sub=s
 def ProcessXor(key, sub): return N("ProcessXor", key=asexpr(key), sub=sub)
 def ProcessRotateLeft(amount, group, sub): return N("ProcessRotateLeft", amount=asexpr(amount), group=asexpr(group), sub=sub)
 def Checksum(field, hashname, over): return N("Checksum", field=field, hash=hashname, over=asexpr(over), hk=[], hv=[])
+def ExprValidator(sub, f): return N("ExprValidator", sub=sub, mode="expr", f=asexpr(f))
 def Rec(name, sub): return N("Rec", name=name, sub=sub)      # binds a name for LazyBound(name) below it; not a construct
 def LazyBound(ref): return N("LazyBound", ref=ref)
 def Indexing(sub, count, index, empty=None): return N("Indexing", sub=sub, count=V.enc(count), index=V.enc(index), empty=V.enc(empty))
@@ -288,6 +289,7 @@ def realize(n):
     if k == "LazyStruct": return cs.LazyStruct(*[R(s) for s in n["subs"]])
     if k == "LazyArray": return cs.LazyArray(E(n["count"]), R(n["sub"]))
     if k == "Compressed": return cs.Compressed(R(n["sub"]), n["codec"])
+    if k == "ExprValidator": return cs.ExprValidator(R(n["sub"]), E(n["f"]))
     if k == "Rec":
         holder = {}
         _REC.setdefault(n["name"], []).append(holder)
